@@ -158,6 +158,8 @@ def run(prog: Program, rep: Report, tier: str) -> None:
     rep.rule("R7.8", "structural: no function reachable from the datagram builder or the protocol's methods declares a global or mutates / stores into a module-level name (memory between datagrams, whatever the analysis of the values can follow)", 1, structural=True)
     ms_ = module_state_on_receive_path(prog)
     rep.check(not ms_, "R7.8", "no module-level state on the receive path", "src/aioswitcher/bridge.py", f"{ms_[:3]}: what is delivered for a datagram depends on the datagrams seen before it", key="R7.8|module-state")
+    from ..api_model import gate_premise
+    gate_premise(prog, rep)
     rep.rule("R7.9", "structural: no handler / protocol factory handed to the event loop inside a loop is a closure over a variable that loop re-assigns (late binding: every port's handler would see the last port's value)", 1, structural=True)
     lb_ = late_bound_handlers(prog)
     rep.check(not lb_, "R7.9", "handlers do not close over loop variables", "src/aioswitcher/bridge.py", f"{lb_[:2]}: the handler runs after the loop has finished, so on every port it works with the value of the last iteration - "
@@ -295,6 +297,7 @@ def run(prog: Program, rep: Report, tier: str) -> None:
     I3, souts, sfi = B.run_bridge_method(prog, "start", fresh_instance=True)
     swhere = f"{loc(sfi, sfi.node)} {sfi.qualname}"
     bad4 = None
+    und4 = None
     n_it = 0
     for o in souts:
         if o.kind != "return":
@@ -313,13 +316,19 @@ def run(prog: Program, rep: Report, tier: str) -> None:
                 bad4 = f"protocol factory produces a {ho_.cls.name if ho_.cls else ho_.kind}, not a UdpClientProtocol"
                 continue
             od = ho_.fields.get("_on_datagram")
-            if not B.handler_is_builder_bound_to_callback(od):
-                bad4 = f"protocol handler is {T.show(od)[:80]}, not partial(_parse_device_from_datagram, self._on_device)"
+            hb_ = B.handler_is_builder_bound_to_callback(od)
+            if hb_ is False:
+                bad4 = f"protocol handler is {T.show(od)[:80]}: it does not run _parse_device_from_datagram with self._on_device when the datagram arrives (bound to something else, or handed to a scheduling primitive of the event loop)"
+            elif hb_ is None:
+                und4 = f"protocol handler is {T.show(od)[:80]}: a form this rule does not judge"
             if not fresh_:
                 protos.append(oid_)
         if len(set(protos)) != len(protos):
             bad4 = "one protocol object is shared by several ports"
-    rep.check(bad4 is None and n_it > 0, "R7.4", "protocol per port bound to the user callback", swhere, bad4 or "no endpoint creation explored", key="R7.4|protocol")
+    if bad4 is None and und4 is not None:
+        rep.undecided("R7.4", "protocol per port bound to the user callback", swhere, und4)
+    else:
+        rep.check(bad4 is None and n_it > 0, "R7.4", "protocol per port bound to the user callback", swhere, bad4 or "no endpoint creation explored", key="R7.4|protocol")
     # ---- R7.7 (shares its analysis with C17 R17.7)
     from .c17 import iter_count as _ic, _flat as _fl
     try:
